@@ -17,7 +17,7 @@ def make_plan(ths, tier, rnd):
         n = QUICK.get(theory, 2)
         # exhaustive small-scope histories from the ApiGen specification
         bodies, r = histories.exhaustive_bodies(theory, sig, api, n if n <= 2 else 2, 3,
-                                                2, 2 if thorough else 1, 4, f"c01-gen-{theory}")
+                                                2, 1, 4, f"c01-gen-{theory}")
         plan.add_gen(r)
         cap = 400 if thorough else 250
         chosen = bodies if len(bodies) <= cap else rnd.sample(bodies, cap)
@@ -34,6 +34,6 @@ def make_plan(ths, tier, rnd):
 def run(tier, replay):
     return modelcheck.run(PROP, tier, replay, make_plan, design=[("pend", {"maxels": 1, "maxid": 3, "maxasserts": 2}), ("poset", {"maxels": 2, "maxid": 2, "maxasserts": 2, "thorough_only": {"maxels": 3, "maxid": 3, "maxasserts": 3}})],
                           explanation="histories: every ApiGen history of the scope (2 pre-created elements per type, "
-                                      "<=3 calls, <=2 assertions, close_until stopping at evaluation 0/1 (thorough 0..2)) plus seeded random "
+                                      "<=3 calls, <=2 assertions, close_until stopping at evaluation 0/1) plus seeded random "
                                       "histories; oracle: naive evaluation of the reference stages on the dumped closed model "
                                       "and comparison with the reference chase")
